@@ -207,6 +207,14 @@ func (o *Operator) HandleDeploy(ctx context.Context, req *workerpb.DeployOperato
 		return fmt.Errorf("creating filesystem: %w", err)
 	}
 
+	// A database from a previous deployment is replaced. Its files are still
+	// needed to recover from the checkpoints it saved.
+	if o.db != nil {
+		if err := o.db.Close(); err != nil {
+			return fmt.Errorf("closing previous database: %w", err)
+		}
+	}
+
 	// Start the DKV database.
 	o.db = dkv.Open(dkv.DBOptions{
 		FileSystem:    fs,
